@@ -103,6 +103,33 @@ def check_disorder(case):
         compared += 1
         if not oracle.close(got, ref, rel=1e-5):
             raise Violation("gamma-k-disorder-mismatch", f"category {category!r}: library {got} definition {ref} slots {slots_list}")
+    # history on the SAME alignment object: another combined dissimilarity, then an in-place edit (stale memos)
+    second = case.get("second")
+    if second:
+        spec2 = dict(spec, alpha=second["alpha"], delta=second["delta"])
+        if spec2["cat"] is not None:
+            spec2["cat"] = dict(spec2["cat"], delta=second["delta"])
+        d2 = oracle.build_dissim(spec2)
+        for category in [None] + present[:2]:
+            got = float(lib_call("gamma_k_disorder[second dissimilarity]", al.gamma_k_disorder, d2, category))
+            ref, _ = ref_gamma_k_disorder(spec2, slots_list, category)
+            if ref is not None and not oracle.close(got, ref, rel=1e-5):
+                raise Violation("gamma-k-disorder-mismatch:after-other-dissimilarity", f"category {category!r}: library {got} definition {ref} (first alpha/delta {spec['alpha']}/{spec['delta']}, now {spec2['alpha']}/{spec2['delta']})")
+        # in-place edit: append a copy of an existing unitary alignment's real pair as an extra unitary alignment
+        donor = next((sl for sl in slots_list if sum(1 for x in sl if x is not None) >= 2), None)
+        if donor is not None:
+            keep = [i for i, x in enumerate(donor) if x is not None][:2]
+            extra = [x if i in keep else None for i, x in enumerate(donor)]
+            extra_ua = pa.UnitaryAlignment([(a, None if x is None else pa.Unit(Segment(x[0], x[1]), x[2])) for a, x in zip(names, extra)])
+            al.unitary_alignments.append(extra_ua)
+            slots2 = slots_list + [extra]
+            for category in [None] + present[:1]:
+                got = float(lib_call("gamma_k_disorder[after append]", al.gamma_k_disorder, d, category))
+                ref, _ = ref_gamma_k_disorder(spec, slots2, category)
+                if ref is not None and not oracle.close(got, ref, rel=1e-5):
+                    raise Violation("gamma-k-disorder-mismatch:after-in-place-edit", f"category {category!r}: library {got} definition {ref}")
+            al.unitary_alignments.pop()
+            classes.append("history")
     # refusal for non-combined dissimilarities
     for other in ({"kind": "pos", "delta": 1.0}, {"kind": "abs", "delta": 1.0}):
         try:
@@ -184,6 +211,8 @@ def disorder_cases(draw):
     cs["groups"] = draw(st.lists(st.lists(slot, min_size=n, max_size=n), min_size=1, max_size=8)) if cs["alignment"] == "hand" else []
     if draw(st.booleans()):
         cs["dissim"]["alpha"] = draw(st.sampled_from([0.0, 0.25, 0.5, 1.0, 2.0, 3.0]))
+    if draw(st.booleans()):
+        cs["second"] = {"alpha": draw(st.sampled_from([0.0, 0.5, 1.0, 3.0])), "delta": draw(st.sampled_from([0.5, 1.0, 2.0]))}
     return cs
 
 
